@@ -37,14 +37,15 @@ def bare(i):
     return i.rsplit(".", 1)[-1]
 
 
-def _runs(mage, d, words, exe=None):
-    r2 = mage.run(d, words, exe=exe)
+def _runs(mage, d, words, exe=None, flags=(), env=None):
+    flags = list(flags)
+    r2 = mage.run(d, flags + words, exe=exe, env=env)
     cl = projlib.calls(r2["out"])
     if r2["rc"] == 0 and len(cl) == len(words):
         return [[w, c[0]] for w, c in zip(words, cl)]
     out = []
     for w in words:
-        r3 = mage.run(d, [w], exe=exe)
+        r3 = mage.run(d, flags + [w], exe=exe, env=env)
         cl = projlib.calls(r3["out"])
         out.append([w, cl[0][0] if len(cl) == 1 and r3["rc"] == 0 else ("" if not cl else "+".join(c[0] for c in cl))])
     return out
@@ -53,18 +54,24 @@ def _runs(mage, d, words, exe=None):
 def observe_state(mage, d, spec):
     """one state of a project directory: `mage -l`, every runnable name when accepted; for the states of a
     history also `mage -h <target>`, `mage <name>` when rejected, and `mage -compile`"""
-    r = mage.run(d, ["-l"])
-    o = {"rc": r["rc"], "class": projlib.stderr_class(r["err"]), "groups": parse_msg(r["err"]), "stderr": r["err"][-1500:], "runs": []}
+    flags, env = c07gen.MODES[spec.get("mode", "plain")]
+    r = mage.run(d, flags + ["-l"], env=env)
+    err = "\n".join(l for l in r["err"].splitlines() if not l.startswith("DEBUG: "))
+    o = {"rc": r["rc"], "class": projlib.stderr_class(err), "groups": parse_msg(err), "stderr": err[-1500:], "runs": [], "mode": spec.get("mode", "plain")}
     cmds = spec.get("cmds", [])
     if r["rc"] == 0 and spec["words"]:
-        o["runs"] = _runs(mage, d, spec["words"])
+        o["runs"] = _runs(mage, d, spec["words"], flags=flags, env=env)
+    if r["rc"] == 0:
+        for w in spec.get("nonwords", []):        # must not be runnable: run one at a time
+            r3 = mage.run(d, flags + [w], env=env)
+            o["runs"].append([w, "+".join(c[0] for c in projlib.calls(r3["out"]))])
     defs = c07gen.all_defs(spec)
     tnames = [c07gen.runnable(defs[i], a) for i, a in c07gen.exposures(spec)]
     if "h" in cmds and tnames:
-        rh = mage.run(d, ["-h", tnames[0].lower()])
+        rh = mage.run(d, flags + ["-h", tnames[0].lower()], env=env)
         o["help"] = {"word": tnames[0].lower(), "rc": rh["rc"], "class": projlib.stderr_class(rh["err"]), "stderr": rh["err"][-400:]}
     if "run" in cmds and r["rc"] != 0 and spec["words"]:
-        rr = mage.run(d, spec["words"][:1])
+        rr = mage.run(d, flags + spec["words"][:1], env=env)
         o["run1"] = {"word": spec["words"][0], "rc": rr["rc"], "class": projlib.stderr_class(rr["err"]), "calls": [c[0] for c in projlib.calls(rr["out"])], "stderr": rr["err"][-400:]}
     if "compiled" in cmds:
         exe = os.path.join(d, "compiled_magefile")
@@ -164,7 +171,7 @@ def oracle(spec, o):
         for w, ran in o["runs"]:
             if ran != own.get(w.lower(), ""):
                 return "`mage %s` ran %s, its own definition is %s" % (w, ran or "nothing", own.get(w.lower()) or "none")
-        if len(o["runs"]) != len(spec["words"]):
+        if len(o["runs"]) != len(spec["words"]) + len(spec.get("nonwords", [])):
             return "not every word was run"
         return None
     some = sorted(dup)[0]
@@ -273,7 +280,9 @@ def run(ctx):
     nontriv = 0
     matrix, outcome, msgs = {}, {"accepted": 0, "rejected": 0, "other": 0}, {"case": 0, "alias": 0, "multi": 0}
     words_run = 0
+    modes = {}
     for spec, o in zip(specs, obs):
+        modes[spec.get("mode", "plain")] = modes.get(spec.get("mode", "plain"), 0) + 1
         kind = "%s/%s" % (spec["kind"], "undecided" if spec["collide"] is None and spec["kind"] != "soup" else ("collision" if spec["collide"] else "near-miss"))
         matrix.setdefault(kind, {"n": 0, "rejected": 0})
         matrix[kind]["n"] += 1
@@ -290,6 +299,8 @@ def run(ctx):
         bad = oracle(spec, o) or oracle_commands(spec, o)
         if bad:
             hist = prefix[len(items)]
+            if spec.get("mode", "plain") != "plain":
+                bad = "[invoked with %s] %s" % (spec["mode"], bad)
             if len(hist) > 1:
                 bad = "state %d of a project directory edited in place (same cache): %s" % (len(hist) - 1, bad)
             ctx.violation({"kind": "oracle", "clause": bad, "collision_kind": kind}, case={"history": hist, "spec": spec, "observed": o})
@@ -322,6 +333,8 @@ def run(ctx):
     cov["histories"] = sum(1 for h in hists if len(h) > 1)
     cov["history_states"] = sum(len(h) for h in hists if len(h) > 1)
     cov["decoys_rendered"] = sum(len(sp.get("decoys", [])) + sum(len(i.get("decoys", [])) for i in sp["imports"]) for sp in specs)
+    cov["invocation_modes"] = modes
+    cov["imports_with_own_aliases"] = sum(1 for sp in specs for i in sp["imports"] if i.get("own_aliases"))
     cov["matrix"] = matrix
     cov["outcomes"] = outcome
     cov["messages_seen"] = msgs
